@@ -466,15 +466,15 @@ def handler_alphabet(tier, spec=False):
         types = [0, 2]; reqs = [5, 9, 6, 3, 1, 0]; vals = [0x01B1, 0x0100]; lens = [18]; recs = [0]
         nbits = 7
     else:
-        types = [0, 1, 2]; reqs = H_REQS; vals = H_VALUES; lens = [0, 18]; recs = [0, 2]
+        types = [0, 1, 2]; reqs = H_REQS; vals = [0x01B1, 0x0100, 0xFF4E]; lens = [18]; recs = [0]     # 8064 words (much longer lists overflow coqc's stack)
         nbits = 7
-    letters = []
-    for ty, rq, vl, ln, rc in itertools.product(types, reqs, vals, lens, recs):
-        for bits in range(1 << nbits):
-            c = dict(s_type=ty, s_req=rq, s_value=vl, s_len=ln, s_recipient=rc,
-                     s_recv=bits & 1, new_token=(bits >> 1) & 1, status_req=(bits >> 2) & 1, ack=(bits >> 3) & 1,
-                     data_req=(bits >> 4) & 1, tx_ready=(bits >> 5) & 1, gd_stall=(bits >> 6) & 1)
-            letters.append(pack(H_LAYOUT, c))
+    fparts = [pack(H_LAYOUT, dict(s_type=ty, s_req=rq, s_value=vl, s_len=ln, s_recipient=rc))
+              for ty, rq, vl, ln, rc in itertools.product(types, reqs, vals, lens, recs)]
+    bparts = [pack(H_LAYOUT, dict(s_recv=bits & 1, new_token=(bits >> 1) & 1, status_req=(bits >> 2) & 1, ack=(bits >> 3) & 1,
+                                  data_req=(bits >> 4) & 1, tx_ready=(bits >> 5) & 1, gd_stall=(bits >> 6) & 1))
+              for bits in range(1 << nbits)]
+    # the two parts occupy disjoint bit positions: their sum is the packed word
+    letters = f"flat_map (fun f => map (fun b => f + b) {nl(bparts)}) {nl(fparts)}"
     names = "received/new_token/status_requested/ack/data_requested/tx.ready/get_descriptor.stall".split("/")[:nbits]
     desc = (f"setup.type in {types}, request in {reqs}, value in {[hex(v) for v in vals]}, length in {lens}, recipient in {recs}, "
             f"all {1 << nbits} combinations of {'/'.join(names)}" + ("" if nbits == 7 else " (other inputs 0)"))
@@ -509,14 +509,14 @@ def obligations(targets, tier):
         if t.kind == "handler":
             sletters, sdesc = handler_alphabet(tier, spec=True)
             letters, desc = handler_alphabet(tier)
-            obs.append(tie.rmon("ob_handler_spec", t, mon="hd_spec_mon", m0="dev_spec_m0", alpha_bits=0, alphabet=nl(sletters), fuel=3000,
+            obs.append(tie.rmon("ob_handler_spec", t, mon="hd_spec_mon", m0="dev_spec_m0", alpha_bits=0, alphabet=sletters, fuel=3000,
                                 describe="StandardRequestHandler (sliced netlist): its address/configuration write strobes are exactly the commits "
                                          "of the SPECIFICATION (pending request, armed by the status-stage answer, disarmed by any token), value = "
                                          "wValue truncated; all traces over the alphabet: " + sdesc + "; environment: setup fields stable unless received"))
             obs.append(tie_alpha.rlock_alpha(
                 "ob_handler", t, St="hstate", mstep="hd_step", enc="h_enc", dec="h_dec", wf="(fun _ => True)",
                 dec_enc="(fun h _ => h_dec_enc h)", wf_step="(fun _ _ _ => I)", m0="h_init", wf_m0="exact I.",
-                alphabet=nl(letters), fuel=3000,
+                alphabet=letters, fuel=3000,
                 describe="StandardRequestHandler (sliced netlist) == request-handler model (3 merged states + two expecting_ack registers), "
                          "all traces over the alphabet: " + desc + " (no environment assumption)"))
             obs.append(tie.corr("corr_handler", t, mstep="hd_step", m0="h_init",
@@ -535,7 +535,8 @@ def obligations(targets, tier):
                 alphabet=nl(letters), fuel=3000,
                 describe="address/configuration registers of the real USBDevice (two stub endpoints, stub reset sequencer; sliced) == register model "
                          "(endpoint added first has priority; bus reset wins); all traces over: " + desc))
-            obs.append(tie.corr("corr_regs", t, mstep="rg_step", m0="(0, 0)",
+            if tier != "quick":
+              obs.append(tie.corr("corr_regs", t, mstep="rg_step", m0="(0, 0)",
                                 describe="USBDevice registers vs register model on simulator traces with unrestricted values"))
         else:
             obs.append(tie.cmon("cmon_device_spec", t, mon="dev_spec_mon", m0="dev_spec_m0",
